@@ -1647,6 +1647,9 @@ where
 
                         self.buffer.clear();
 
+                        // The batch is through: statements evicted while preparing it can go now.
+                        server.close_evicted_prepared_statements().await?;
+
                         if !server.in_transaction() {
                             self.stats.transaction();
                             server
